@@ -109,6 +109,9 @@ def catalogue(cfg, iso, sh, rng):
                                                                                    udf_symlink_path='/nodir/symx', udf_target='tgt')
     # --- El Torito present: refusals that depend on the boot state
     if iso.eltorito_boot_catalog is not None:
+        if not any(sec.platform_id == 0xef and sec.section_entries for sec in iso.eltorito_boot_catalog.sections):
+            yield 'add_isohybrid', 'efi-without-efi-entry', EARLY, lambda: iso.add_isohybrid(efi=True)
+            yield 'add_isohybrid', 'mac-without-efi-entries', EARLY, lambda: iso.add_isohybrid(mac=True)
         bf = sh.get('bootfile')
         if bf:
             yield 'rm_file', 'boot-file:iso', EARLY, lambda: iso.rm_file(iso_path=bf)
